@@ -14,6 +14,8 @@ sys.path.insert(0, os.path.join(os.path.dirname(HERE), 'shim'))
 
 import lib  # noqa: E402
 
+lib.install_fastarena()
+
 
 def main():
     ap = argparse.ArgumentParser()
